@@ -13,6 +13,7 @@ import (
 	"os"
 	"path/filepath"
 	"sort"
+	"strconv"
 	"strings"
 	"sync"
 	"testing"
@@ -120,7 +121,7 @@ func newMainWorld(p *Plan) (*mainWorld, error) {
 		if kind == "tiles" {
 			url += "/"
 		}
-		fmt.Fprintf(&yaml, "  - Origin: %s\n    URL: %s\n    PublicKey: %s\n    Feeder: %s\n", ld.Origin, url, ld.Key.VerifierString(), kind)
+		fmt.Fprintf(&yaml, "  - Origin: %s\n    URL: %s\n    PublicKey: %s\n    Feeder: %s\n", strconv.Quote(ld.Origin), url, ld.Key.VerifierString(), kind) // quoted: origins may begin or end with blanks
 	}
 	omniwitness.ConfigLogs = []byte(yaml.String())
 	var err error
@@ -607,6 +608,12 @@ func init() {
 				feeders = append(feeders, "tiles") // only one SumDB-shaped log can exist: its origin is fixed by the format
 				p.Cfg.Extra[fmt.Sprintf("size%d", i)] = int64(Pick(r, 1, 2, 200, 254, 255, 256, 257, 300, 65530, 65536))
 				p.Cfg.Extra[fmt.Sprintf("ext%d", i)] = int64(r.IntN(2))
+			}
+			if nl > 1 && r.Chance(0.3) {
+				// an origin of unusual but legal shape: every part of Main must still mean the same log by it
+				i := r.Range(1, nl-1)
+				p.Cfg.Logs[i].Origin = Pick(r, "%s ", " %s", "%s\u00a0", "Sim Example Log %s", "%s/UPPER")
+				p.Cfg.Logs[i].Origin = fmt.Sprintf(p.Cfg.Logs[i].Origin, fmt.Sprintf("sim.example/main%d", i))
 			}
 			feeders[0] = []string{"sumdb", "tiles"}[n%2]
 			if feeders[0] == "sumdb" {
